@@ -111,8 +111,7 @@ def decl_module(d, ops_wanted):
     attrs = "".join("    " + a[1] + "\n" for a in d.attrs)
     from syntax import VIS_RUST
     vis = VIS_RUST[d.vis]
-    struct = "    #[nutype(%s)]\n%s    %sstruct %s%s(%s);\n" % (
-        toks_rust(d.toks, fr), attrs, (vis + " ") if vis else "", T, gens, inner)
+    struct = d.rust_struct(toks_rust(d.toks, fr))
     inst = d.inst if hasattr(d, "inst") else ""      # e.g. "<i32>" for generic wrappers
     TT = T + inst
     inner_c = d.inner_concrete if hasattr(d, "inner_concrete") else inner
@@ -126,6 +125,10 @@ def decl_module(d, ops_wanted):
     lines.append(consts)
     lines.append(d.extra_items)
     lines.append(struct)
+    if getattr(d, "no_run", False):
+        lines.append('    pub fn run(op: &str, arg: &str) -> String { "na".to_string() }')
+        lines.append("}")
+        return "\n".join(lines)
     lines.append("    type Inner = %s;" % inner_c)
     lines.append("    type TT = %s;" % TT)
     if "Deserialize" in info.traits:
